@@ -94,7 +94,9 @@ func runC20(r *Run) {
 		for _, ri := range ff.Returns() {
 			for _, fc := range ri.Facts {
 				if fc.Kind == "stored" && strings.HasSuffix(fc.A.String(), ".ProtocolVersion") {
-					ok = core.MatchTerm("getOperationsAtProtocolVersion(OperationQueue.Peek(...))#1", fc.B, core.Bind{})
+					// (zero-tolerant: see C16.cut.count — the zero alternative belongs to the empty candidate, for
+					// which nothing is removed)
+					ok = core.MatchTerm("getOperationsAtProtocolVersion(OperationQueue.Peek(...))#1", core.StripOrZero(fc.B), core.Bind{})
 				}
 			}
 		}
